@@ -231,4 +231,8 @@ def main(argv=None):
 
 
 if __name__ == "__main__":
-    sys.exit(main())
+    # run the module under its package name, so that the exception classes the rule modules import
+    # (sa.framework.AnalysisError) are the ones caught here
+    from sa.framework import main as _main
+
+    sys.exit(_main())
